@@ -1,6 +1,7 @@
 (* Virtual IPs in the catalog model: the assignment is injective in every reachable state, and the
-   virtual IP a connect-native instance advertises is its service's current assignment.  (For
-   sidecar proxies the second statement is false: Refuted.v.) *)
+   virtual IP any instance advertises is the current assignment of its service (for a sidecar proxy:
+   of its destination).  The second statement was false for sidecar proxies until freeServiceVirtualIP
+   learnt to look at the connect index (/repo 8e1bd1c). *)
 From stdpp Require Import gmap strings.
 From RecordUpdate Require Import RecordSet.
 From Coq Require Import NArith.
@@ -13,11 +14,11 @@ Definition VI (s : st) : Prop :=
   (forall n ip m, vips s !! n = Some (ip, m) -> 0 < ip <= counter s /\ ip ∉ free s) /\
   (forall ip, ip ∈ free s -> 0 < ip <= counter s).
 
-(* a native (non-proxy) instance that advertises a virtual IP advertises its service's assignment *)
+(* an instance that advertises a virtual IP is in the connect index, and the address is the current
+   assignment of the service it is indexed under *)
 Definition AD (s : st) : Prop :=
   forall k v ip, services s !! k = Some v -> sv_vip v = Some ip ->
-    sv_native v = true -> sv_kind v ≠ KProxy ->
-    exists m, vips s !! sv_name v = Some (ip, m).
+    exists n m, connect_name v = Some n /\ vips s !! n = Some (ip, m).
 
 Definition INV (s : st) : Prop := VI s /\ AD s.
 
@@ -76,8 +77,8 @@ Proof.
       + rewrite lookup_insert in H2. injection H2 as <- <-. rewrite lookup_insert_ne in H1 by congruence.
         exfalso. eapply Hfresh; [exact H1|reflexivity].
       + rewrite lookup_insert_ne in H1, H2 by congruence. eapply Hinj; eassumption.
-    - intros k v ip2 Hk Hvip Hnat Hkind. rewrite Hs in Hk. destruct (Had k v ip2 Hk Hvip Hnat Hkind) as [m Hm].
-      rewrite Hv. destruct (decide (sv_name v = name)) as [Heq|Hne]; [rewrite Heq in Hm; congruence|].
+    - intros k v ip2 Hk Hvip. rewrite Hs in Hk. destruct (Had k v ip2 Hk Hvip) as (n & m & Hcn & Hm).
+      exists n. rewrite Hv. destruct (decide (n = name)) as [Heq|Hne]; [rewrite Heq in Hm; congruence|].
       rewrite lookup_insert_ne by congruence. eauto. }
   destruct (min_free (free s)) as [ipf|] eqn:Em.
   - injection Ha as <- <-. pose proof (min_free_elem _ _ Em) as Hin.
@@ -111,10 +112,18 @@ Proof.
   exists k, v. split; assumption.
 Qed.
 
+Lemma has_connect_instance_false name s k v :
+  has_connect_instance name s = false -> services s !! k = Some v -> connect_name v ≠ Some name.
+Proof.
+  unfold has_connect_instance. intros Hf Hk Heq. apply bool_decide_eq_false in Hf. apply Hf.
+  exists k, v. split; assumption.
+Qed.
+
 Lemma free_vip_INV name s : INV s -> INV (free_vip name s).
 Proof.
   intros Hinv. unfold free_vip. destruct (negb (vips_on s)); [exact Hinv|].
   destruct (has_instance name s) eqn:Ehi; [exact Hinv|].
+  destruct (has_connect_instance name s) eqn:Ehc; [exact Hinv|].
   destruct (existsb _ _); [exact Hinv|].
   destruct (vips s !! name) as [[ip m]|] eqn:Ev; [|exact Hinv].
   destruct Hinv as [(Hinj & Hrange & Hfree) Had]. split; [split; [|split]|]; cbn.
@@ -122,8 +131,9 @@ Proof.
   - intros n ip2 m2 Hn. apply lookup_delete_Some in Hn as [Hne Hn]. destruct (Hrange _ _ _ Hn) as [Hr _].
     split; [exact Hr|]. intros Hin. apply elem_of_singleton in Hin. subst ip2. apply Hne. symmetry. eapply Hinj; eassumption.
   - intros ip2 Hin. apply elem_of_singleton in Hin. subst ip2. apply (Hrange _ _ _ Ev).
-  - intros k v ip2 Hk Hvip Hnat Hkind. destruct (Had k v ip2 Hk Hvip Hnat Hkind) as [m2 Hm2].
-    exists m2. cbn. cbn in Hk. rewrite lookup_delete_ne; [exact Hm2|]. intros Heq. apply (has_instance_false _ _ _ _ Ehi Hk). congruence.
+  - intros k v ip2 Hk Hvip. destruct (Had k v ip2 Hk Hvip) as (n & m2 & Hcn & Hm2).
+    exists n, m2. split; [exact Hcn|]. cbn. cbn in Hk. rewrite lookup_delete_ne; [exact Hm2|].
+    intros Heq. apply (has_connect_instance_false _ _ _ _ Ehc Hk). congruence.
 Qed.
 
 Lemma INV_delete_service_row k s : INV s -> INV (s <| services ::= delete k |>).
@@ -134,7 +144,7 @@ Qed.
 
 Lemma INV_insert_service_row k v s :
   INV s ->
-  (forall ip, sv_vip v = Some ip -> sv_native v = true -> sv_kind v ≠ KProxy -> exists m, vips s !! sv_name v = Some (ip, m)) ->
+  (forall ip, sv_vip v = Some ip -> exists n m, connect_name v = Some n /\ vips s !! n = Some (ip, m)) ->
   INV (s <| services ::= <[k := v]> |>).
 Proof.
   intros [Hvi Had] Hnew. split; [exact Hvi|]. intros k' v' ip Hk. cbn in Hk.
@@ -159,8 +169,8 @@ Proof.
   - intros n ip m H. apply ipmap_lookup in H. rewrite Hi in H. apply ipmap_lookup_inv in H as [m' H].
     rewrite Hf, Hc. eapply Hrange; exact H.
   - rewrite Hf, Hc. exact Hfree.
-  - intros k v ip Hk Hvip Hn Hkd. rewrite Hs in Hk. destruct (Had k v ip Hk Hvip Hn Hkd) as [m Hm].
-    apply ipmap_lookup in Hm. rewrite <- Hi in Hm. apply ipmap_lookup_inv in Hm. exact Hm.
+  - intros k v ip Hk Hvip. rewrite Hs in Hk. destruct (Had k v ip Hk Hvip) as (n & m & Hcn & Hm).
+    apply ipmap_lookup in Hm. rewrite <- Hi in Hm. apply ipmap_lookup_inv in Hm as [m' Hm']. eauto.
 Qed.
 
 Lemma assign_manual_frame name ips s :
@@ -272,8 +282,8 @@ Proof.
   assert (H2 : INV s2) by (eapply INV_core; [apply upsert_ksn_core|exact H1]).
   apply res_bind_ok in He as ([vip s7] & E3 & He).
   assert (H7 : INV s7 /\
-    (forall ip, vip = Some ip -> sr_native r = true -> sr_kind r ≠ KProxy -> exists m, vips s7 !! sr_name r = Some (ip, m))).
-  { destruct (is_connect r); [|injection E3 as <- <-; split; [exact H2|discriminate]].
+    (forall ip, vip = Some ip -> is_connect r = true /\ exists m, vips s7 !! connect_target r = Some (ip, m))).
+  { destruct (is_connect r) eqn:Eic; [|injection E3 as <- <-; split; [exact H2|discriminate]].
     cbn zeta in E3.
     set (s5 := if bool_decide (connect_target r = "") then _ else _) in E3.
     assert (H5 : INV s5).
@@ -286,14 +296,19 @@ Proof.
     destruct (vips_on s5 && negb (bool_decide (connect_target r = ""))); [|injection E3 as <- <-; split; [exact H5|discriminate]].
     apply res_bind_ok in E3 as ([ip s6] & Ea & E3). injection E3 as <- <-.
     destruct (assign_vip_INV _ _ _ _ Ea H5) as (H6 & [m Hm] & _). split; [exact H6|].
-    intros ip' [= <-] Hnat Hkind. exists m. unfold connect_target in Hm.
-    rewrite bool_decide_eq_false_2 in Hm by exact Hkind. exact Hm. }
+    intros ip' [= <-]. split; [reflexivity|]. exists m. exact Hm. }
   destruct H7 as [H7 Hvip].
+  assert (Hrow : forall c m ip, sv_vip (Svc (sr_name r) (sr_kind r) (sr_native r) (sr_dest r) (sr_port r) (sr_ups r) vip c m) = Some ip ->
+            exists n m', connect_name (Svc (sr_name r) (sr_kind r) (sr_native r) (sr_dest r) (sr_port r) (sr_ups r) vip c m) = Some n /\
+                         vips s7 !! n = Some (ip, m')).
+  { intros c m ip Hip. cbn in Hip. destruct (Hvip ip Hip) as [Hic [m' Hm']]. exists (connect_target r), m'. split; [|exact Hm'].
+    unfold connect_name, connect_target, is_connect in *. cbn.
+    destruct (bool_decide (sr_kind r = KProxy)); cbn in *; [reflexivity|]. rewrite Hic. reflexivity. }
   destruct (nodes s7 !! nd); [|discriminate].
   destruct (services s !! (nd, sr_id r)) as [x|].
   - destruct (same_service x r vip); injection He as <-; [exact H7|].
-    apply INV_insert_service_row; [exact H7|]. cbn. exact Hvip.
-  - injection He as <-. apply INV_insert_service_row; [exact H7|]. cbn. exact Hvip.
+    apply INV_insert_service_row; [exact H7|]. apply Hrow.
+  - injection He as <-. apply INV_insert_service_row; [exact H7|]. apply Hrow.
 Qed.
 
 Lemma rfold_INV {A} (f : st -> A -> res st) l :
